@@ -85,21 +85,27 @@ def run(ctx):
     opt = pp.optim.LM(M())
     so_meta, so_cases = [], []
     scfgs = [(s, p, d) for s in range(1, 7) for p in range(1, 5) for d in (1.0, 0.25)]
-    ins = [(4.0, 1.0, 0), (4.0, 3.0, 0), (4.0, 3.75, 0), (4.0, 3.5, 0), (4.0, 4.0, 0), (4.0, 6.0, 0), (4.0, 1.0, 1), (4.0, 4.0, 3), (0.0, 0.0, 0)]
+    ins = [(4.0, 1.0, 0), (4.0, 3.0, 0), (4.0, 3.75, 0), (4.0, 3.5, 0), (4.0, 4.0, 0), (4.0, 6.0, 0), (4.0, 1.0, 1), (4.0, 4.0, 3), (0.0, 0.0, 0),
+           # large-magnitude losses, where `decreasing` is far below one unit in the last place of the loss: an exact plateau,
+           # a decrease of exactly one ulp (< decreasing? no: ulp >= 4 > decreasing) and an increase; float32 and float64 tensors
+           (2.0 ** 25, 2.0 ** 25, 0, 'f32'), (2.0 ** 25, 2.0 ** 25 - 4.0, 0, 'f32'), (2.0 ** 25, 2.0 ** 25 + 4.0, 0, 'f32'), (32768.0, 32768.0, 0, 'f32'),
+           (2.0 ** 55, 2.0 ** 55, 0, 'f64'), (2.0 ** 55, 2.0 ** 55 - 8.0, 0, 'f64'), (2.0 ** 60, 2.0 ** 60, 2, 'f64')]
+    ins = [t if len(t) == 4 else t + ('f64',) for t in ins]
     for cfg in scfgs:
         for steps in range(0, 8):
             for pc in range(0, 6):
                 for cont in (True, False):
-                    for (la, lo, rj) in ins:
+                    for (la, lo, rj, dtn) in ins:
+                        dtp = torch.float32 if dtn == 'f32' else torch.float64
                         if not ctx.thorough and (steps + pc + len(so_meta)) % 3 and steps not in (cfg[0] - 1, cfg[0]) and pc not in (cfg[1] - 1, cfg[1]):
                             continue
                         sch = StopOnPlateau(opt, steps=cfg[0], patience=cfg[1], decreasing=cfg[2])
                         sch.steps, sch.patience_count, sch._continual = steps, pc, cont
-                        opt.last, opt.loss, opt.reject_count = torch.tensor(la, dtype=torch.float64), torch.tensor(lo, dtype=torch.float64), rj
+                        opt.last, opt.loss, opt.reject_count = torch.tensor(la, dtype=dtp), torch.tensor(lo, dtype=dtp), rj
                         sch.step(opt.loss)
                         after = (sch.steps, sch.patience_count, bool(sch.continual()))
-                        so_meta.append(dict(kind='sop-trans', cfg=cfg, state=(steps, pc, cont), inp=(la, lo, rj), after=after))
-                        ctx.case(('sop', cfg, steps, pc, cont, la, lo, rj), branch='sop-transition')
+                        so_meta.append(dict(kind='sop-trans', cfg=cfg, state=(steps, pc, cont), inp=(la, lo, rj), dtype=dtn, after=after))
+                        ctx.case(('sop', cfg, steps, pc, cont, la, lo, rj, dtn), branch='sop-transition')
                         so_cases.append('(%d%%nat, (%d%%Z, %d%%Z, %s), (%d%%Z, %d%%Z, %s), (%s, %s, %d%%nat), (%d%%Z, %d%%Z, %s))' % (
                             len(so_meta) - 1, cfg[0], cfg[1], qlit(cfg[2]), steps, pc, b(cont), qlit(la), qlit(lo), rj, after[0], after[1], b(after[2])))
     for si, sh in enumerate(shard(so_cases, 500)):
@@ -332,7 +338,8 @@ def replay(ctx, c):
         opt = pp.optim.LM(M())
         sch = StopOnPlateau(opt, steps=cfg[0], patience=cfg[1], decreasing=cfg[2])
         sch.steps, sch.patience_count, sch._continual = steps, pc, cont
-        opt.last, opt.loss, opt.reject_count = torch.tensor(la, dtype=torch.float64), torch.tensor(lo, dtype=torch.float64), rj
+        dtp = torch.float32 if c.get('dtype') == 'f32' else torch.float64
+        opt.last, opt.loss, opt.reject_count = torch.tensor(la, dtype=dtp), torch.tensor(lo, dtype=dtp), rj
         sch.step(opt.loss)
         got = (sch.steps, sch.patience_count, bool(sch.continual()))
         pc2 = pc + 1 if (Fraction(la) - Fraction(lo)) < Fraction(cfg[2]) else 0
@@ -348,7 +355,7 @@ def replay(ctx, c):
             if o is None:
                 st.reset()
                 # documented: reset restores the initial state (observable behaviour)
-                state = (0, state[1], None, True)
+                state = (0, 0, None, True)
                 continue
             st.step(torch.tensor(o, dtype=torch.float64))
             state = doc_rtb(cfg, state, o)
